@@ -4,7 +4,8 @@
    Louvain.v (move choice = oracle), Artic.v (after repository commit 640de1b). *)
 From Coq Require Import List Arith Bool ZArith QArith Qabs Permutation.
 From SV Require Import C15.Graph C15.Artic C15.ArticSpec C15.KCore C15.KCoreSpec C15.PageRank C15.Louvain.
-From SV Require C15.KCoreProofs C15.PageRankProofs C15.LouvainProofs C15.ArticProofs C15.ArticSpecProofs.
+From SV Require C15.KCoreProofs C15.PageRankProofs C15.LouvainProofs C15.ArticProofs C15.ArticSpecProofs
+  C15.ArticExact C15.ArticExactPublic.
 Import ListNotations.
 Open Scope nat_scope.
 
@@ -149,12 +150,32 @@ Theorem C15_is_bridge_b_sound : forall g e,
 Proof. exact ArticSpecProofs.is_bridge_b_sound. Qed.
 Print Assumptions C15_is_bridge_b_sound.
 
-(* STRETCH, not proved here: exactness of the DFS model itself (the per-run certificate above covers the
-   implementation's answers case by case instead). *)
-Definition C15_artic_exact_full_statement : Prop :=
-  forall g s, valid_graph g = true -> run g = Some s ->
-    (forall v, In v (aps s) <-> is_cut_vertex g v) /\
-    (forall a b, In (a, b) (brs s) <-> (a < b /\ is_bridge g a b)).
+(* exactness of the low-link DFS model itself, for every valid input: the reported vertices are exactly
+   the cut vertices, the reported pairs exactly the canonically ordered bridges of the symmetrised simple
+   graph (removal increases the reachability-based component count) *)
+Theorem C15_artic_points_exact : forall g s, valid_graph g = true -> run g = Some s ->
+  forall v, In v (aps s) <-> is_cut_vertex g v.
+Proof. exact ArticExact.artic_points_exact. Qed.
+Print Assumptions C15_artic_points_exact.
+
+Theorem C15_artic_bridges_exact : forall g s, valid_graph g = true -> run g = Some s ->
+  forall a b, In (a, b) (brs s) <-> (a < b /\ is_bridge g a b).
+Proof. exact ArticExact.artic_bridges_exact. Qed.
+Print Assumptions C15_artic_bridges_exact.
+
+(* ... and for the two public functions, including the early return for n <= 1, objective = len(solution),
+   evaluations = n, and no fuel exhaustion *)
+Theorem C15_articulation_points_exact : forall g, valid_graph g = true ->
+  exists sol it, articulation_points g = Some (sol, length sol, it, length (nodes g)) /\
+    NoDup sol /\ forall v, In v sol <-> is_cut_vertex g v.
+Proof. exact ArticExactPublic.articulation_points_exact. Qed.
+Print Assumptions C15_articulation_points_exact.
+
+Theorem C15_bridges_exact : forall g, valid_graph g = true ->
+  exists sol it, bridges g = Some (sol, length sol, it, length (nodes g)) /\
+    forall a b, In (a, b) sol <-> (a < b /\ is_bridge g a b).
+Proof. exact ArticExactPublic.bridges_exact. Qed.
+Print Assumptions C15_bridges_exact.
 
 (* ------------------------------------------------------------------ non-vacuity *)
 (* two triangles joined by the bridge 2-3, every edge given one way *)
